@@ -261,7 +261,7 @@ reg(Spec("C18", "c18_safety.cpp", needs=("shim", "optable"),
                       "instance reuse across cases relies on Reset (C17); every sanitizer death is re-confirmed from the saved case in a fresh process"]))
 
 reg(Spec("C19", "c19_threads.cpp", variant="tsan", needs=("optable", "lib"), workers=8,
-         cases={"quick": 25, "thorough": 1500},
+         cases={"quick": 80, "thorough": 1500},
          technique="property-based testing (rapidcheck-generated schedules) executed on two real threads under ThreadSanitizer",
          rule="rapidcheck-generated schedules: 200-400 host operations (SendData with per-channel sequence numbers, RecvData, ready / "
               "empty polls, PeekRecvData, Set/Clear/Mask/GetSemaphore), each followed by a generated pause (none, yield, spin "
